@@ -285,6 +285,14 @@ pub fn parse_blocks(
         for result in file_system.walk() {
             match result {
                 Ok(file_path) => {
+                    #[cfg(feature = "verif")]
+                    crate::verif_trace::emit(
+                        "walk_file",
+                        serde_json::json!({"path": file_path,
+                            "allow": path_checker.should_allow(&file_path),
+                            "ignore": path_checker.should_ignore(&file_path),
+                            "in_diff": line_changes_by_file.contains_key(&file_path)}),
+                    );
                     if !path_checker.should_allow(&file_path)
                         || path_checker.should_ignore(&file_path)
                     {
@@ -314,6 +322,11 @@ pub fn parse_blocks(
     }
     // Parse remaining files in `line_changes_by_file` from the given diff input (if any).
     for (file_path, line_changes) in line_changes_by_file {
+        #[cfg(feature = "verif")]
+        crate::verif_trace::emit(
+            "diff_file",
+            serde_json::json!({"path": file_path, "ignore": path_checker.should_ignore(&file_path)}),
+        );
         if path_checker.should_ignore(&file_path) {
             // Not calling `path_checker.should_allow()` because all the files in the
             // `line_changes_by_file` are implicitly allowed.
@@ -333,6 +346,11 @@ pub fn parse_blocks(
             blocks.insert(file_path.clone(), file_blocks);
         }
     }
+    #[cfg(feature = "verif")]
+    crate::verif_trace::emit(
+        "scope_done",
+        serde_json::json!({"files": blocks.keys().collect::<Vec<_>>()}),
+    );
     Ok(blocks)
 }
 
@@ -349,6 +367,17 @@ fn parse_file(
     parsers: &HashMap<OsString, LanguageParser>,
     extra_file_extensions: &HashMap<OsString, OsString>,
 ) -> anyhow::Result<Option<FileBlocks>> {
+    #[cfg(feature = "verif")]
+    crate::verif_trace::emit(
+        "parse_file",
+        serde_json::json!({"path": file_path,
+            "filter": if matches!(blocks_filter, BlocksFilter::All) { "all" } else { "modified" },
+            "grammar": parser_for_file_path(file_path, parsers, extra_file_extensions).is_some(),
+            "changes": line_changes.iter().map(|c| serde_json::json!({"line": c.line,
+                "whole": c.ranges.is_none(),
+                "ranges": c.ranges.as_ref().map(|r| r.iter().map(|x| [x.start, x.end]).collect::<Vec<_>>())
+                    .unwrap_or_default()})).collect::<Vec<_>>()}),
+    );
     let parser = match parser_for_file_path(file_path, parsers, extra_file_extensions) {
         None => return Ok(None),
         Some(p) => p,
@@ -364,6 +393,24 @@ fn parse_file(
         .filter_map(|block| {
             let is_content_modified = block.content_intersects_with_any(line_changes);
             let is_start_tag_modified = block.start_tag_intersects_with_any(line_changes);
+            #[cfg(feature = "verif")]
+            crate::verif_trace::emit(
+                "block",
+                serde_json::json!({"path": file_path,
+                    "tag": [block.start_tag_position_range.start().line,
+                        block.start_tag_position_range.start().character,
+                        block.start_tag_position_range.end().line,
+                        block.start_tag_position_range.end().character],
+                    "content": [block.content_position_range.start.line,
+                        block.content_position_range.start.character,
+                        block.content_position_range.end.line,
+                        block.content_position_range.end.character],
+                    "bytes": [block.content_bytes_range.start, block.content_bytes_range.end],
+                    "attrs": block.attributes,
+                    "content_mod": is_content_modified, "tag_mod": is_start_tag_modified,
+                    "kept": matches!(blocks_filter, BlocksFilter::All)
+                        || is_content_modified || is_start_tag_modified}),
+            );
 
             if matches!(blocks_filter, BlocksFilter::All)
                 || is_content_modified
